@@ -65,10 +65,12 @@ struct M {
     ctid: u8,
     boot: u32,
     fill: u32,
+    creq: bool,   // control request (needs ext)
+    has_ts: bool, // standard header carries a timestamp
 }
 impl M {
     fn json(&self) -> Value {
-        json!([self.ecu, self.rt, self.ts, self.mcnt, self.ext, self.apid, self.ctid, self.boot, self.fill])
+        json!([self.ecu, self.rt, self.ts, self.mcnt, self.ext, self.apid, self.ctid, self.boot, self.fill, self.creq, self.has_ts])
     }
     fn from_json(v: &Value) -> M {
         M {
@@ -81,13 +83,15 @@ impl M {
             ctid: v[6].as_u64().unwrap() as u8,
             boot: v[7].as_u64().unwrap() as u32,
             fill: v[8].as_u64().unwrap() as u32,
+            creq: v[9].as_bool().unwrap_or(false),
+            has_ts: v[10].as_bool().unwrap_or(true),
         }
     }
     fn build(&self, uid: u32) -> DltMessage {
         let mut payload = uid.to_le_bytes().to_vec();
         payload.extend(std::iter::repeat(0x55u8).take(self.fill as usize));
         let ext = if self.ext {
-            Some(DltExtendedHeader { verb_mstp_mtin: 4 << 4, noar: 0, apid: DltChar4::from_buf(&apid_id(self.apid)), ctid: DltChar4::from_buf(&ctid_id(self.ctid)) })
+            Some(DltExtendedHeader { verb_mstp_mtin: if self.creq { (3 << 1) | (1 << 4) } else { 4 << 4 }, noar: 0, apid: DltChar4::from_buf(&apid_id(self.apid)), ctid: DltChar4::from_buf(&ctid_id(self.ctid)) })
         } else {
             None
         };
@@ -95,8 +99,8 @@ impl M {
             index: 0,
             reception_time_us: self.rt,
             ecu: DltChar4::from_buf(&ecu_id(self.ecu)),
-            timestamp_dms: self.ts,
-            standard_header: DltStandardHeader { htyp: 0x20 | 0x10 | if self.ext { 1 } else { 0 }, len: 0, mcnt: self.mcnt },
+            timestamp_dms: if self.has_ts { self.ts } else { 0 },
+            standard_header: DltStandardHeader { htyp: 0x20 | if self.has_ts { 0x10 } else { 0 } | if self.ext { 1 } else { 0 }, len: 0, mcnt: self.mcnt },
             extended_header: ext,
             payload,
             payload_text: None,
@@ -449,7 +453,7 @@ fn same_msg(a: &DltMessage, b: &DltMessage) -> bool {
 fn parse_out(scn: &Scn, r: &RunOut, style: u8) -> Parsed {
     let mut key: HashMap<(u8, u32, u8), u32> = HashMap::new();
     for (uid, m) in scn.msgs.iter().enumerate() {
-        key.insert((m.ecu, m.ts, m.mcnt), uid as u32);
+        key.insert((m.ecu, if m.has_ts { m.ts } else { 0 }, m.mcnt), uid as u32);
     }
     let mut p = Parsed { screen: vec![], listing: None, file: None, problems: vec![] };
     if style != 0 {
@@ -622,7 +626,7 @@ fn truth(scn: &Scn, baseline: &[(u32, u32)]) -> Truth {
     for (_, uid) in baseline {
         let m = &scn.msgs[*uid as usize];
         let mb = maxboot.entry(m.ecu).or_insert(m.boot);
-        if m.boot < *mb {
+        if m.boot < *mb || m.creq || !m.has_ts || m.boot == u32::MAX {
             clean = false;
         }
         *mb = (*mb).max(m.boot);
@@ -825,7 +829,7 @@ fn record(sink: &mut Sink, w: &World, scn_no: usize, args: &[ArgSpec], o: &Opts,
                 .map(|uid| {
                     let m = &scn.msgs[*uid as usize];
                     let fv: Vec<&str> = filters.iter().map(|f| cbool(f.verdict(m))).collect();
-                    format!("({}, {}, {}, {}, {})", uid, m.ecu, m.rt, m.ts as u64 * 100, clist(&fv))
+                    format!("({}, {}, {}, {}, {}, {}, {})", uid, m.ecu, m.rt, if m.has_ts { m.ts as u64 * 100 } else { 0 }, cbool(m.has_ts), cbool(m.creq), clist(&fv))
                 })
                 .collect();
             format!("({}, {}, {})", k, if f.missing { 0 } else { scn.file_bytes(k).1 }, clist(&msgs))
@@ -875,6 +879,12 @@ fn record(sink: &mut Sink, w: &World, scn_no: usize, args: &[ArgSpec], o: &Opts,
     }
     if !dft {
         tags.push("first_times_tie".into());
+    }
+    if scn.msgs.iter().any(|m| m.boot == u32::MAX) {
+        tags.push("messy_trace".into());
+    }
+    if files_named.iter().any(|k| !scn.files[*k].missing && scn.file_bytes(*k).1 < scn.files[*k].msgs.len()) {
+        tags.push("file_larger_than_scan".into());
     }
     if t.lc_of.is_none() {
         tags.push("lifecycles_not_clean".into());
@@ -960,6 +970,8 @@ fn gen_msgs(rng: &mut Rng, necu: u64, max_per_boot: u64, grid: u64) -> Vec<M> {
                     ctid: if ext { rng.range(1, 3) as u8 } else { 0 },
                     boot: b as u32,
                     fill: 0,
+                    creq: false,
+                    has_ts: true,
                 });
             }
             // next boot: at least 1 ms after the last message was generated
@@ -991,7 +1003,41 @@ fn gen_msgs(rng: &mut Rng, necu: u64, max_per_boot: u64, grid: u64) -> Vec<M> {
 fn gen_scn(rng: &mut Rng, big: bool) -> Scn {
     let necu = rng.range(1, 4);
     let grid = *rng.pick(&[100u64, 1_000, 100_000, 1_000_000, 1_000_000]);
-    let msgs = gen_msgs(rng, necu, if big { 9 } else { 5 }, grid);
+    let mut msgs = gen_msgs(rng, necu, if big { 9 } else { 5 }, grid);
+    // messy traces (no lifecycle ground truth, the model's detector is compared): control requests, messages
+    // without timestamp, reception times out of order, timestamps that do not fit the boot
+    if rng.chance(1, 5) {
+        for m in msgs.iter_mut() {
+            match rng.below(8) {
+                0 => {
+                    m.ext = true;
+                    m.creq = true;
+                    if m.apid == 0 {
+                        m.apid = 1;
+                        m.ctid = 1;
+                    }
+                }
+                1 => m.has_ts = false,
+                2 => m.rt = m.rt + rng.below(3_000_000),
+                3 => m.rt = m.rt - rng.below(3_000_000),
+                4 => m.ts = m.ts + rng.below(400_000) as u32,
+                _ => {}
+            }
+            m.boot = u32::MAX;
+        }
+        // keep (ecu, ts, mcnt) unique
+        let mut used: BTreeSet<(u8, u32, u8)> = BTreeSet::new();
+        for m in msgs.iter_mut() {
+            let ts = if m.has_ts { m.ts } else { 0 };
+            let mut c = m.mcnt;
+            while used.contains(&(m.ecu, ts, c)) {
+                c = c.wrapping_add(1);
+            }
+            m.mcnt = c;
+            used.insert((m.ecu, ts, c));
+        }
+    }
+    let huge = big && rng.chance(1, 3);
     let nfiles = rng.range(1, 5) as usize;
     // each file: an ECU subset and a phase (time slice) it accepts
     let nphase = rng.range(1, 3);
@@ -1017,7 +1063,7 @@ fn gen_scn(rng: &mut Rng, big: bool) -> Scn {
     let strict_phase = rng.chance(2, 3);
     let mut files: Vec<Vec<u32>> = vec![vec![]; nfiles];
     for (uid, m) in msgs.iter().enumerate() {
-        let phase = ((m.rt - t0) * nphase / (t1 - t0).max(1)).min(nphase - 1);
+        let phase = (m.rt.saturating_sub(t0) * nphase / t1.saturating_sub(t0).max(1)).min(nphase - 1);
         let mut cand: Vec<usize> = (0..nfiles).filter(|k| sets[*k].0.contains(&m.ecu) && (!strict_phase || sets[*k].1 == phase)).collect();
         if cand.is_empty() {
             cand = (0..nfiles).filter(|k| sets[*k].0.contains(&m.ecu)).collect();
@@ -1026,6 +1072,15 @@ fn gen_scn(rng: &mut Rng, big: bool) -> Scn {
             cand = vec![rng.below(nfiles as u64) as usize];
         }
         files[*rng.pick(&cand)].push(uid as u32);
+    }
+    if huge {
+        // one file larger than the 512 KiB convert looks at to find out which ECUs a file contains
+        let k = (0..nfiles).max_by_key(|k| files[*k].len()).unwrap();
+        if files[k].len() >= 10 {
+            for uid in files[k][..9].iter() {
+                msgs[*uid as usize].fill = 58_300;
+            }
+        }
     }
     let mut fs: Vec<FileSpec> = files
         .into_iter()
@@ -1150,7 +1205,7 @@ fn shuffle<T>(rng: &mut Rng, v: &mut Vec<T>) {
 /// four single-ECU files, first messages at distinct times, two later messages tie: the heap merge pops them in an
 /// order that depends on the order in which the streams were pushed (the order of the file arguments before the fix)
 fn corpus_tie() -> Scn {
-    let mk = |ecu: u8, rt: u64, ts: u32, mcnt: u8| M { ecu, rt, ts, mcnt, ext: false, apid: 0, ctid: 0, boot: 0, fill: 0 };
+    let mk = |ecu: u8, rt: u64, ts: u32, mcnt: u8| M { ecu, rt, ts, mcnt, ext: false, apid: 0, ctid: 0, boot: 0, fill: 0, creq: false, has_ts: true };
     let msgs = vec![
         mk(1, RHO + 100, 0, 0),
         mk(1, RHO + 300, 2, 1), // the tie: both second messages are received at the same time
